@@ -17,8 +17,15 @@ struct Resource {
     std::string bytes;       // the entity as the parser sees it (expanded)
     std::string core;        // bytes without the padding block; bytes == core[0,padAt) + padUnit*padCount + padExtra + core[padAt,)
     size_t padAt = 0, padCount = 0; std::string padUnit, padExtra;
-    void expand() { if (padCount == 0 && padExtra.empty()) { bytes = core; return; } bytes.clear(); bytes.reserve(core.size() + padUnit.size() * padCount + padExtra.size()); bytes.append(core, 0, padAt); for (size_t i = 0; i < padCount; i++) bytes += padUnit; bytes += padExtra; bytes.append(core, padAt, std::string::npos); }
-    void dropPad() { core = bytes; padAt = padCount = 0; padUnit.clear(); padExtra.clear(); }
+    size_t pad2At = 0, pad2Count = 0;     // optional second block (same unit) further back, e.g. behind the root element
+    void expand() {
+        if (padAt > core.size()) padAt = core.size(); if (pad2At > core.size()) pad2At = core.size(); if (pad2At < padAt) pad2At = padAt;
+        if (padCount == 0 && padExtra.empty() && pad2Count == 0) { bytes = core; return; }
+        bytes.clear(); bytes.reserve(core.size() + padUnit.size() * (padCount + pad2Count) + padExtra.size());
+        bytes.append(core, 0, padAt); for (size_t i = 0; i < padCount; i++) bytes += padUnit; bytes += padExtra;
+        bytes.append(core, padAt, pad2At - padAt); for (size_t i = 0; i < pad2Count; i++) bytes += padUnit; bytes.append(core, pad2At, std::string::npos);
+    }
+    void dropPad() { core = bytes; padAt = padCount = pad2At = pad2Count = 0; padUnit.clear(); padExtra.clear(); }
     std::vector<Span> spans;
     std::vector<size_t> safeCuts;   // byte offsets k such that bytes[0,k) is still a well-formed entity of its role
     size_t rootEnd = 0;             // doc: byte offset just after the root end tag
@@ -91,6 +98,10 @@ struct GenOpts {
     int maxDepth = 4; int maxChildren = 4; bool allowDoctype = true; bool allowExternal = true; bool allowNS = true;
     bool forceUtf8 = false; int padTo = 0; int padBytes = 0;   // padBytes: same, in bytes of the chosen encoding            // pad (comment/text) so the document reaches about this many chars
     bool allowXml11 = true; bool trailingMisc = true; bool bigText = false;
+    bool idAttrs = false; std::vector<std::u32string> presetNames;    // shared element names across the documents of one history
+    int alignMode = 0;            // 0 off, 1 = align a construct to a 16384-unit character-buffer refill point, 2 = to a 49152-byte raw refill point
+    int alignMultiple = 1; int alignDelta = 0; std::string alignKind;   // which multiple, how many units before it, construct kind ("" = any)
+    int padAfterBytes = 0;        // additional block of pad comments right behind the root element
 };
 
 class WorldGen {
@@ -105,7 +116,8 @@ public:
         w.hasDoctype = doctype;
         // names
         int nNames = rng.range(2, 6); for (int i = 0; i < nNames; i++) elemNames.push_back(genName());
-        rootName = elemNames[0];
+        if (!opt.presetNames.empty()) { elemNames = opt.presetNames; if (cs != CS_FULL) for (auto& n : elemNames) for (auto& c : n) if (c > (cs == CS_ASCII ? 0x7Fu : 0xFFu)) c = U'n'; }
+        rootName = elemNames[0]; hasDoctypeFlag = doctype;
         // entities
         if (doctype) {
             int nEnt = rng.small(4);
@@ -126,6 +138,7 @@ public:
             em.puts("?>"); em.end(id);
         }
         if (opt.padBytes > 0) opt.padTo = opt.padBytes / (ucs4 ? 4 : enc.rfind("UTF-16", 0) == 0 ? 2 : 1);
+        if (opt.alignMode && opt.padTo <= 0) opt.padTo = 8;
         if (opt.padTo > 0) padAtChar = em.out.size();     // materialised by finish() as a block of short comments
         misc(em, 2);
         if (doctype) genDoctype(em, w);
@@ -142,12 +155,16 @@ public:
     }
 
     // Variant with a leading pad so that the body of the document crosses the 16K-char / 48K-byte refill points.
+    std::string alignedKind; size_t padAfterChars = 0;
     int leadPad = 0; size_t padAtChar = (size_t)-1; bool fallback = false;   // fallback: some character was not representable in the chosen encoding
     std::string enc; bool bom = false; bool ucs4 = false;
 
 private:
     Rng rng; GenOpts opt; bool xml11 = false, useNS = false; Charset cs = CS_FULL;
-    std::vector<std::u32string> elemNames; std::u32string rootName;
+    std::vector<std::u32string> elemNames; std::u32string rootName; bool hasDoctypeFlag = false; int nextId = 3;
+public:
+    const std::vector<std::u32string>& names() const { return elemNames; }
+private:
     struct Ent { std::u32string name; bool external = false; bool declared = false; bool unparsed = false; bool markup = false; };
     std::vector<Ent> ents; std::vector<Resource> pending;
     bool hasExtSubset = false, hasExtGE = false, hasExtPE = false;
@@ -268,6 +285,10 @@ private:
         int na = rng.small(3);
         for (int i = 0; i < na; i++) { std::u32string an = genName(); if (an == U"xmlns") continue; if (useNS && !prefixes.empty() && rng.chance(1, 4)) an = prefixes.back() + U":" + an; if (std::find(used.begin(), used.end(), an) != used.end()) continue; used.push_back(an); ws(em, true); em.putu(an); ws(em, false); em.put(U'='); ws(em, false); attrValue(em); }
         if (rng.chance(1, 6) && std::find(used.begin(), used.end(), U"xml:space") == used.end()) { ws(em, true); em.puts("xml:space="); quoted(em, rng.coin() ? "preserve" : "default"); }
+        // ID / IDREF attributes (declared by declsBlock for some element types): values come from a small pool so that
+        // different documents of one history share them; now and then a duplicate ID or a dangling IDREF (validity errors)
+        if (opt.idAttrs && hasDoctypeFlag && rng.chance(1, 3) && std::find(used.begin(), used.end(), U"id") == used.end()) { ws(em, true); em.puts("id="); int v = rng.chance(1, 8) ? (int)rng.below(3) : nextId++; quoted(em, "i" + std::to_string(v)); }
+        if (opt.idAttrs && hasDoctypeFlag && rng.chance(1, 4) && std::find(used.begin(), used.end(), U"ref") == used.end()) { ws(em, true); em.puts("ref="); quoted(em, "i" + std::to_string((int)rng.below(rng.chance(1, 6) ? 40 : (unsigned)std::max(1, nextId)))); }
         ws(em, false);
         if (empty) { em.puts("/>"); em.end(id); }
         else {
@@ -311,6 +332,7 @@ private:
         // element declarations
         for (auto& n : elemNames) if (rng.chance(3, 4)) { size_t id = em.begin("elementdecl"); em.puts("<!ELEMENT"); ws(em, true); em.putu(n); ws(em, true); contentModel(em); ws(em, false); em.put(U'>'); em.end(id); if (rng.coin()) ws(em, true); }
         // attlists
+        if (opt.idAttrs) for (auto& n : elemNames) if (rng.chance(2, 3)) { size_t id = em.begin("attlist"); em.puts("<!ATTLIST "); em.putu(n); em.puts(" id ID #IMPLIED ref IDREF #IMPLIED>"); em.end(id); }
         int na = rng.small(3);
         for (int i = 0; i < na; i++) {
             size_t id = em.begin("attlist"); em.puts("<!ATTLIST"); ws(em, true); em.putu(elemNames[rng.below(elemNames.size())]); ws(em, true); em.putu(genName()); ws(em, true);
@@ -403,11 +425,37 @@ private:
         if (r.role == "doc" && padAtChar != (size_t)-1 && opt.padTo > 0) {
             std::u32string unit = U"<!--pad pad pad pad pad pad pad pad pad pad pad pad pad pad-->\n";   // 64 chars
             std::vector<size_t> tmp; std::string ub; encodeText(unit, encUsed, false, ub, tmp);
-            size_t bpc = ub.size() / unit.size(); size_t want = (size_t)opt.padTo * bpc; size_t cnt = want / ub.size(); size_t rem = (want - cnt * ub.size()) / bpc;
+            size_t bpc = ub.size() / unit.size();
+            // Aligned targeting: choose the pad so that one chosen construct of the body starts `alignDelta` units before a
+            // refill point - a multiple of 16384 UTF-16 units counted from the end of the XML declaration (character
+            // buffer), or a multiple of 49152 bytes (raw buffer). The exact refill position drifts by the few unread
+            // characters carried over at each refill, so callers sweep alignDelta over a small window.
+            if (opt.alignMode && !em.spans.empty()) {
+                std::vector<size_t> cand; for (size_t i = 0; i < em.spans.size(); i++) if (em.spans[i].b >= padAtChar && em.spans[i].kind != "xmldecl" && (opt.alignKind.empty() || em.spans[i].kind == opt.alignKind)) cand.push_back(i);
+                if (cand.empty()) for (size_t i = 0; i < em.spans.size(); i++) if (em.spans[i].b >= padAtChar && em.spans[i].kind != "xmldecl") cand.push_back(i);
+                if (!cand.empty()) {
+                    const Emitter::CSpan& sp = em.spans[cand[rng.below(cand.size())]]; alignedKind = sp.kind;
+                    long long target = (long long)opt.alignMultiple * (opt.alignMode == 1 ? 16384 : 49152) - opt.alignDelta;
+                    long long have;
+                    if (opt.alignMode == 1) { size_t declEnd = (!em.spans.empty() && em.spans[0].kind == "xmldecl") ? em.spans[0].e : 0; have = 0; for (size_t i = declEnd; i < sp.b; i++) have += em.out[i] >= 0x10000 ? 2 : 1; }
+                    else have = (long long)c2b[sp.b];
+                    long long padUnits = target - have; if (opt.alignMode == 2) padUnits /= (long long)bpc;
+                    if (padUnits >= 8) opt.padTo = (int)padUnits;
+                }
+            }
+            size_t want = (size_t)opt.padTo * bpc; size_t cnt = want / ub.size(); size_t rem = (want - cnt * ub.size()) / bpc;
+            if (rem > 0 && rem < 8 && cnt > 0) { cnt--; rem += unit.size(); }     // the fine-tuning comment needs at least 8 characters
             std::string eb; if (rem >= 8) { std::u32string ex = U"<!--"; ex.append(rem - 7, U'x'); ex += U"-->"; encodeText(ex, encUsed, false, eb, tmp); }
             r.padAt = c2b[padAtChar]; r.padUnit = ub; r.padCount = cnt; r.padExtra = eb;
             size_t shift = ub.size() * cnt + eb.size();
             for (size_t i = padAtChar; i < c2b.size(); i++) c2b[i] += shift;
+            // optional second block right behind the root element: gives the reader enough following bytes for full refills
+            if (opt.padAfterBytes > 0 && em.rootEnd > padAtChar && em.rootEnd <= em.out.size()) {
+                size_t cnt2 = (size_t)opt.padAfterBytes / ub.size();
+                r.pad2At = c2b[em.rootEnd] - shift; r.pad2Count = cnt2; size_t shift2 = ub.size() * cnt2;
+                for (size_t i = em.rootEnd + 1; i < c2b.size(); i++) c2b[i] += shift2;
+                padAfterChars = cnt2 * unit.size();
+            }
         }
         r.expand();
         for (auto& s : em.spans) r.spans.push_back(Span{ s.kind, c2b[s.b], c2b[std::min(s.e, em.out.size())] });
